@@ -48,7 +48,7 @@ EXTENDS Integers, Sequences, FiniteSets, TLC
 IntV(i) == [t |-> "int", n |-> i, fs |-> <<>>]
 NULL    == [t |-> "null", n |-> 0, fs |-> <<>>]
 ERR     == [t |-> "err", n |-> 0, fs |-> <<>>]     \* error("missing")
-ERRV    == [t |-> "errv", n |-> 0, fs |-> <<>>]    \* any other error value
+ErrOn(v) == [t |-> "errv", n |-> 0, fs |-> v.fs]  \* any other error value; it embeds the value it is about
 RecV(fs) == [t |-> "rec", n |-> 0, fs |-> fs]      \* fs: sequence of [f, v], in field order
 Fld(f, v) == [f |-> f, v |-> v]
 
@@ -128,14 +128,18 @@ DropField(v, f) == RecV(SelectSeq(v.fs, LAMBDA e : e.f # f))
 \* Non-record values (error values) pass through the record operators as errors.
 MapOne(op, v) ==
   IF v.t # "rec" THEN
-       (IF op.k = "where" THEN (IF AllT(op.ps, v) THEN <<v>> ELSE <<>>)
-        ELSE IF op.k = "yield" THEN <<ERR>> ELSE <<ERRV>>)
+       \* an error value: field references are missing; cut builds a record of them,
+       \* put/drop/rename hand the value on unchanged
+       CASE op.k = "where" -> IF AllT(op.ps, v) THEN <<v>> ELSE <<>>
+         [] op.k = "cut"   -> <<RecV(<<Fld(op.l, ERR)>>)>>
+         [] op.k = "yield" -> <<ERR>>
+         [] OTHER -> <<v>>
   ELSE CASE op.k = "where"  -> IF AllT(op.ps, v) THEN <<v>> ELSE <<>>
     [] op.k = "cut"    -> <<RecV(<<Fld(op.l, Get(v, op.r))>>)>>
     [] op.k = "drop"   -> LET w == DropField(v, op.f) IN IF w.fs = <<>> THEN <<>> ELSE <<w>>
     [] op.k = "put"    -> <<SetField(v, op.l, Get(v, op.r))>>
     [] op.k = "rename" -> IF ~HasField(v, op.r) THEN <<v>>
-                          ELSE IF HasField(v, op.l) THEN <<ERRV>>      \* rename: duplicate field
+                          ELSE IF HasField(v, op.l) THEN <<ErrOn(v)>>      \* error({message:"rename: duplicate field", on:v})
                           ELSE <<RecV([i \in 1..Len(v.fs) |-> IF v.fs[i].f = op.r THEN Fld(op.l, v.fs[i].v) ELSE v.fs[i]])>>
     [] op.k = "yield"  -> <<Get(v, op.f)>>
     [] op.k = "pass"   -> <<v>>
@@ -309,9 +313,15 @@ SemOp(op, st) ==
            [] op.k = "uniq" ->
                 St(<<Stream(Uniq(x.s), x.ord, x.by)>>, st.det /\ x.ord, st.poison)
            [] op.k = "summ" ->
-                LET kf == IF op.pin THEN op.key ELSE op.kr IN
-                St(<<Bag(Summ(op, x.s))>>, st.det,
-                   st.poison \/ (op.dir # 0 /\ op.key # "" /\ ~GroupedAlways(x, kf)))
+                LET kf == IF op.pin THEN op.key ELSE op.kr
+                    c == MaxCmp(kf, op.dir < 0)
+                    \* with InputSortDir set and an input that really is sorted that way, groups are
+                    \* released in key order (groupby.go sorts each released batch by the primary key)
+                    sortedOut == op.dir # 0 /\ op.key # "" /\ SortedBy(x.s, c) /\ (x.ord \/ Compat(x.by, c, x.s))
+                    out == Summ(op, x.s)
+                    oc == MaxCmp(op.key, op.dir < 0)
+                IN St(<<IF sortedOut THEN Stream(out, TiesIdentical(out, oc), oc) ELSE Bag(out)>>, st.det,
+                      st.poison \/ (op.dir # 0 /\ op.key # "" /\ ~GroupedAlways(x, kf)))
 
 SemSeq(ops, st) == IF ops = <<>> THEN st ELSE SemSeq(Tail(ops), SemOp(ops[1], st))
 
